@@ -802,3 +802,30 @@ package kafka
 //@   loop 1 invariant forall i :: 0 <= i && i < len(topics) ==> disjoint(topics[i].Partitions, t.Partitions)
 //@   loop 1 invariant forall j :: 0 <= j && j < len(t.Partitions) ==> (exists p int :: haskey(partitions, p) && int32(p) == t.Partitions[j].Partition && partitions[p] == t.Partitions[j].Offset)
 //@   loop 1 invariant forall i :: 0 <= i && i < len(topics) ==> haskey(offsets, topics[i].Topic) && (forall j :: 0 <= j && j < len(topics[i].Partitions) ==> (exists p int :: haskey(offsets[topics[i].Topic], p) && int32(p) == topics[i].Partitions[j].Partition && offsets[topics[i].Topic][p] == topics[i].Partitions[j].Offset))
+
+//@ property C19
+//@ func (*Client).roundTrip
+//@   trusted sends the request through the transport and returns the response message of the same API (protocol pairing of request and response types)
+//@ func makeTime
+//@   trusted pure conversion of a millisecond timestamp to time.Time (time package)
+//@   pure
+//@ func makeDuration
+//@   pure
+//@ func makeError
+//@   ensures (code == 0) == (result == nil)
+//@ func (*Client).ListOffsets
+//@   option noframe
+//@   modifies heap
+//@   assume the transport answers a ListOffsets request with a *listoffsets.Response (protocol pairing of request and response types) that names only partitions that were requested
+//@   callsite (*Client).roundTrip ensures result1 == nil ==> typeis(result0, "*listoffsets.Response") && !isnil(deref(result0, "listoffsets.Response"))
+//@   unproved nilmap@"partition.Offsets[p.Offset] = makeTime(p.Timestamp)" an entry for a partition that was not requested has a nil Offsets map (observed: panic "assignment to entry in nil map" when a broker answers for an unrequested partition with a custom timestamp); C19 presumes a faithful broker
+//@   callsite (*Client).roundTrip requires typeis($3, "*listoffsets.Request") && (forall i :: 0 <= i && i < len(deref($3, "listoffsets.Request").Topics) ==> haskey(req.Topics, deref($3, "listoffsets.Request").Topics[i].Topic) && len(deref($3, "listoffsets.Request").Topics[i].Partitions) == len(req.Topics[deref($3, "listoffsets.Request").Topics[i].Topic]) && (forall j :: 0 <= j && j < len(deref($3, "listoffsets.Request").Topics[i].Partitions) ==> deref($3, "listoffsets.Request").Topics[i].Partitions[j].Partition == int32(req.Topics[deref($3, "listoffsets.Request").Topics[i].Topic][j].Partition) && deref($3, "listoffsets.Request").Topics[i].Partitions[j].Timestamp == req.Topics[deref($3, "listoffsets.Request").Topics[i].Topic][j].Timestamp))
+//@   loop 2 invariant forall i :: 0 <= i && i < len(topics) ==> haskey(req.Topics, topics[i].Topic) && len(topics[i].Partitions) == len(req.Topics[topics[i].Topic]) && (forall j :: 0 <= j && j < len(topics[i].Partitions) ==> topics[i].Partitions[j].Partition == int32(req.Topics[topics[i].Topic][j].Partition) && topics[i].Partitions[j].Timestamp == req.Topics[topics[i].Topic][j].Timestamp)
+//@   loop 3 invariant haskey(req.Topics, topicName) && same(requests, req.Topics[topicName]) && len(partitions) == len(requests) && fresh(partitions) && -1 <= rangeindex && rangeindex < len(requests)
+//@   loop 3 invariant forall j :: 0 <= j && j <= rangeindex ==> partitions[j].Partition == int32(requests[j].Partition) && partitions[j].Timestamp == requests[j].Timestamp
+//@   loop 3 invariant forall i :: 0 <= i && i < len(topics) ==> haskey(req.Topics, topics[i].Topic) && len(topics[i].Partitions) == len(req.Topics[topics[i].Topic]) && (forall j :: 0 <= j && j < len(topics[i].Partitions) ==> topics[i].Partitions[j].Partition == int32(req.Topics[topics[i].Topic][j].Partition) && topics[i].Partitions[j].Timestamp == req.Topics[topics[i].Topic][j].Timestamp)
+//@   loop 4 invariant partitionOffsets != nil && ret != nil && ret.Topics != nil
+//@   loop 4 invariant forall kid ref :: loopentry(inmap(partitionOffsets, kid) && mapat(partitionOffsets, kid).Error != nil) ==> inmap(partitionOffsets, kid) && mapat(partitionOffsets, kid).Error != nil
+//@   loop 5 invariant partitionOffsets != nil && ret != nil && ret.Topics != nil
+//@   loop 5 invariant forall kid ref :: loopentry(inmap(partitionOffsets, kid) && mapat(partitionOffsets, kid).Error != nil) ==> inmap(partitionOffsets, kid) && mapat(partitionOffsets, kid).Error != nil
+//@   loop 6 invariant ret != nil && ret.Topics != nil
